@@ -1382,3 +1382,36 @@ Proof.
   split; [exact ex_wf_value|]. split; [vm_compute; reflexivity|].
   repeat constructor; try (vm_compute; lia); vm_compute; reflexivity.
 Qed.
+
+
+(* the okw side conditions of the numeric terms follow from Grammar.wf_num *)
+Lemma okw_hd c r : c <> 44%N -> c <> 47%N -> c <> 59%N -> okw (c :: r).
+Proof.
+  intros H1 H2 H3. apply N.eqb_neq in H1, H2, H3. split.
+  - unfold until. change (s ",/") with [44%N; 47%N]. cbn [is_sub starts]. rewrite H1, H2. reflexivity.
+  - change (s ";") with [59%N]. cbn [eqs]. rewrite H3. reflexivity.
+Qed.
+Lemma digit_ok c : is_digit c = true -> c <> 44%N /\ c <> 47%N /\ c <> 59%N.
+Proof. unfold is_digit. intros H. apply andb_true_iff in H as [H1 H2]. apply N.leb_le in H1, H2. lia. Qed.
+Lemma okw_num_lex n tail : wf_num n = true -> okw (num_lex n ++ tail).
+Proof.
+  unfold wf_num. intros H. apply andb_true_iff in H as [H Hf]. apply andb_true_iff in H as [H _].
+  apply andb_true_iff in H as [Hd Hs]. apply Nat.leb_le in Hs.
+  destruct n as [sg i f]. cbn [nint nsign nfrac] in *. unfold num_lex, sign_str. cbn [nsign nint nfrac].
+  destruct sg as [|[|[|sg]]]; [| | |lia]; cbn [app s].
+  - destruct i as [|c i]; cbn [app].
+    + destruct f as [f|]; [|discriminate Hf]. cbn [app]. apply okw_hd; discriminate.
+    + cbn [digits forallb] in Hd. apply andb_true_iff in Hd as [Hc _]. destruct (digit_ok c Hc) as [A [B C]]. apply okw_hd; assumption.
+  - change (s "+" ++ ?x) with (43%N :: x). apply okw_hd; discriminate.
+  - change (s "-" ++ ?x) with (45%N :: x). apply okw_hd; discriminate.
+Qed.
+Lemma wf_num_terms n u : wf_num n = true ->
+  wf_term (TmNum n) /\ wf_term (TmDim n u) /\ wf_term (TmPct n) /\ wf_term_js (TmNum n) /\ wf_term_js (TmPct n).
+Proof.
+  intros H. cbn [wf_term wf_term_js].
+  assert (Hd : digits (nint n) = true /\ nsign n <= 2).
+  { unfold wf_num in H. apply andb_true_iff in H as [H _]. apply andb_true_iff in H as [H _].
+    apply andb_true_iff in H as [Hd Hs]. apply Nat.leb_le in Hs. auto. }
+  pose proof (okw_num_lex n [] H) as H0. rewrite app_nil_r in H0.
+  split; [exact H0|]. split; [exact (okw_num_lex n u H)|]. split; [exact (okw_num_lex n (s "%") H)|]. split; exact Hd.
+Qed.
